@@ -106,13 +106,13 @@ OUTSIDE = ["dyn_header_lengths: only the last 1-2 bytes of the code-length seque
            "dynamic blocks: make_inflate_huff_code_lit_len, set_and_expand_lit_len_huffcode on symbolic lengths (multi-symbol and long-code paths, code lengths up to 15) - measured out of reach",
            "Huffman data longer than 2 bytes quick / 3-4 bytes thorough; distances > 256 before start of output for n >= 3",
            "assembly decoders igzip_decode_block_stateless_01/_04; gzip/zlib wrappers and trailers (C11/C19)",
-           "set_codes on more than 4 symbols quick / 8 (12, 19 attempted) thorough"]
+           "set_codes on more than 4 symbols quick / 8 thorough (12, 19: no verdict in 2400 s)"]
 
 
 def bounds(valid_only):
     return {"stored": "input length 5..12 quick / 0..12 thorough, avail_out 0..8, all bytes symbolic",
             "fixed_huffman": "input 1-2 bytes quick, 1-3 (4 attempted) thorough; avail_out in {0,3} quick, {0,1,2,3,16} thorough; bfinal symbolic",
-            "set_codes": "alphabets of 2..4 symbols quick, 1..8,12,19 thorough; all length vectors over 0..15",
+            "set_codes": "alphabets of 2..4 symbols quick, 1..8 thorough (12 and 19 attempted: no verdict in 2400 s); all length vectors over 0..15",
             "dyn_header_prefix": "3 arbitrary bytes with BTYPE=10 or 11",
             "dyn_header_lengths": "(HLIT,HDIST,lengths left before the boundary,arbitrary tail bytes): (5,3,1,1) quick; + (0,0,2,1) (29,29,3,1) "
                                   "(0,0,2,2) (2,1,1,2) (0,4,0,2) thorough",
